@@ -239,3 +239,77 @@ func vStrElems(v interface{}) ([]string, bool) {
 	}
 	return out, true
 }
+
+// VerifC17LeafListOther: leaf-lists of two bool / string / bytes / int elements survive the journey (stored value ->
+// PROTO Get value and southbound update), element by element and in order; the model's type options are arbitrary
+func VerifC17LeafListOther() {
+	rw := &adminapi.ReadWritePath{}
+	if verifrt.Fork("typeopts", 2) == 1 {
+		rw.TypeOpts = []uint64{uint64(verifrt.NondetByte("opt0"))}
+	}
+	mk := func(a, b *gnmi.TypedValue) *gnmi.TypedValue {
+		return &gnmi.TypedValue{Value: &gnmi.TypedValue_LeaflistVal{LeaflistVal: &gnmi.ScalarArray{Element: []*gnmi.TypedValue{a, b}}}}
+	}
+	elems := func(out *gnmi.TypedValue) []*gnmi.TypedValue {
+		ll, ok := out.Value.(*gnmi.TypedValue_LeaflistVal)
+		verifrt.Assert(ok && ll.LeaflistVal != nil && len(ll.LeaflistVal.Element) == 2, "leaflist-shape-unchanged")
+		if !ok || ll.LeaflistVal == nil || len(ll.LeaflistVal.Element) != 2 {
+			return nil
+		}
+		return ll.LeaflistVal.Element
+	}
+	switch verifrt.Fork("kind", 4) {
+	case 0:
+		b0, b1 := verifrt.NondetBool("b0"), verifrt.NondetBool("b1")
+		_, back, sbv := vRoundTrip(mk(&gnmi.TypedValue{Value: &gnmi.TypedValue_BoolVal{BoolVal: b0}}, &gnmi.TypedValue{Value: &gnmi.TypedValue_BoolVal{BoolVal: b1}}), rw)
+		if back == nil || sbv == nil {
+			return
+		}
+		verifrt.Cover("converted")
+		for _, out := range []*gnmi.TypedValue{back, sbv} {
+			if e := elems(out); e != nil {
+				x, ok0 := e[0].Value.(*gnmi.TypedValue_BoolVal)
+				y, ok1 := e[1].Value.(*gnmi.TypedValue_BoolVal)
+				verifrt.Assert(ok0 && ok1 && x.BoolVal == b0 && y.BoolVal == b1, "leaflist-bool-elements-unchanged")
+			}
+		}
+	case 1:
+		s0, s1 := verifrt.NondetStringN("s0", 1, "ab,"), verifrt.NondetStringN("s1", 2, "ab,")
+		_, back, sbv := vRoundTrip(mk(&gnmi.TypedValue{Value: &gnmi.TypedValue_StringVal{StringVal: s0}}, &gnmi.TypedValue{Value: &gnmi.TypedValue_StringVal{StringVal: s1}}), rw)
+		if back == nil || sbv == nil {
+			return
+		}
+		verifrt.Cover("converted")
+		for _, out := range []*gnmi.TypedValue{back, sbv} {
+			if e := elems(out); e != nil {
+				verifrt.Assert(e[0].GetStringVal() == s0 && e[1].GetStringVal() == s1, "leaflist-string-elements-unchanged")
+			}
+		}
+	case 2:
+		s0, s1 := verifrt.NondetStringN("y0", 1, "\x00a\x1d"), verifrt.NondetStringN("y1", 2, "\x00a\x1d")
+		_, back, sbv := vRoundTrip(mk(&gnmi.TypedValue{Value: &gnmi.TypedValue_BytesVal{BytesVal: []byte(s0)}}, &gnmi.TypedValue{Value: &gnmi.TypedValue_BytesVal{BytesVal: []byte(s1)}}), rw)
+		if back == nil || sbv == nil {
+			return
+		}
+		verifrt.Cover("converted")
+		for _, out := range []*gnmi.TypedValue{back, sbv} {
+			if e := elems(out); e != nil {
+				verifrt.Assert(string(e[0].GetBytesVal()) == s0 && string(e[1].GetBytesVal()) == s1, "leaflist-bytes-elements-unchanged")
+			}
+		}
+	case 3:
+		i0, i1 := verifrt.NondetInt64("i0"), verifrt.NondetInt64("i1")
+		_, back, sbv := vRoundTrip(mk(&gnmi.TypedValue{Value: &gnmi.TypedValue_IntVal{IntVal: i0}}, &gnmi.TypedValue{Value: &gnmi.TypedValue_IntVal{IntVal: i1}}), rw)
+		if back == nil || sbv == nil {
+			return
+		}
+		verifrt.Cover("converted")
+		for _, out := range []*gnmi.TypedValue{back, sbv} {
+			if e := elems(out); e != nil {
+				x, ok0 := e[0].Value.(*gnmi.TypedValue_IntVal)
+				y, ok1 := e[1].Value.(*gnmi.TypedValue_IntVal)
+				verifrt.Assert(ok0 && ok1 && x.IntVal == i0 && y.IntVal == i1, "leaflist-int-elements-unchanged")
+			}
+		}
+	}
+}
